@@ -67,7 +67,12 @@ Reward(s, a) ==
 
 (* board solved: every mine-free cell is revealed *)
 Solved(t) == \A rc \in MsCells : MsIsMine(t, rc) \/ MsExplored(t, rc)
-Done(s, a, t) == MsOutcome(s, a) \in {"invalid", "mine"} \/ Solved(t)
+(* The done function is an extension point (`done_function`); the documented default ends the episode on an invalid click, on
+   a mine and on the solved board.  Cfg.move_budget > 0 stands for a user-supplied done function: the default rules plus "the
+   episode also ends once move_budget clicks have been made". *)
+MoveBudget == IF "move_budget" \in DOMAIN Cfg THEN Cfg.move_budget ELSE 0
+DefaultDone(s, a, t) == MsOutcome(s, a) \in {"invalid", "mine"} \/ Solved(t)
+Done(s, a, t) == DefaultDone(s, a, t) \/ (MoveBudget > 0 /\ t.step_count >= MoveBudget)
 
 (* ---------- observation ---------- *)
 Obs(s) == [ board |-> s.board, action_mask |-> Mask(s), num_mines |-> Cfg.num_mines, step_count |-> s.step_count ]
